@@ -52,44 +52,54 @@ let predict (c : string) (obs : string) : string * string * bool =
       let unl = String.length spec >= 4 && String.sub spec 0 4 = "unl:" in
       let want = Printf.sprintf "0 %s 0" (if unl then "0" else reps) in
       (want, verdict (obs = want) ("finish callback must fire exactly once, and only when the schedule has ended; expected " ^ want), true)
-  | ["start"; _per; _t; _rps; _a; k; _st; _shoot; _cancel; _failgun; _provrun] ->
+  | ["start"; per; _t; _rps; _a; k; _st; _shoot; _cancel; failgun; _provrun] ->
       let k = int_of_string k in
       (match split_blank obs with
-       | [outcome; started; finished; ids; distinct; notahead; ammo_out; rps_fin; ext; fail; endclass; conserved; late; onprofile] ->
+       | [outcome; started; finished; ids; distinct; notahead; ammo_out; rps_fin; ext; fail; endclass; conserved; late; onprofile; attempts] ->
            let started = int_of_string started and finished = int_of_string finished in
+           let attempts = int_of_string attempts in
            let idl = if ids = "-" then [] else List.map int_of_string (String.split_on_char ',' ids) in
            let b = bool_of_field in
            let cause =
              if b fail then Some InstanceFailed else if b ext then Some RunCancelled
              else if b ammo_out then Some OutOfAmmo else if rps_fin = "1" then Some RpsFinished else None in
            let toks = List.map (fun i -> z_of_int (i * 1000)) (seqi 0 k) in
-           let launched = List.fold_left (fun m i -> max m (i + 1)) 0 idl in
-           let fail0 = b fail && idl = [] in
-           let c = if endclass = "exhausted" then None else cause in
-           let fin = drive (nat_of_int (20 * k + 50)) (nat_of_int launched) c fail0 (sinit toks Z0) in
-           let m_ids = List.map (fun (i, _) -> int_of_nat i) (creations fin) in
-           let m_end = (match fin.spc with LEnd EExhausted -> "exhausted" | LEnd _ -> "cut" | _ -> "model-not-ended") in
+           (* ids handed out by the start loop; the creations that failed are the ids without an instance *)
+           let launched = max attempts (List.fold_left (fun m i -> max m (i + 1)) 0 idl) in
+           let holes = List.filter (fun i -> not (List.mem i idl)) (seqi 0 launched) in
+           let fail0 = b fail && idl = [] && launched = 1 in
+           let async_fail = b fail && not fail0 && holes <> [] in
+           (* a failure injected before any creation is attempted: warm-up gun, shared rps schedule factory *)
+           let pre_fail = failgun = "1" || (per = "0" && String.length failgun > 0 && failgun.[0] = 's') in
+           let c = if endclass = "exhausted" || async_fail then None else cause in
+           let fin = adrive (nat_of_int (40 * k + 80)) (nat_of_int launched) c fail0 (endclass = "exhausted")
+               (List.map nat_of_int (if fail0 then [] else holes)) (ainit toks Z0) in
+           let m_ids = List.sort compare (List.map int_of_nat (live_ids fin)) in
+           let m_end = (match fin.base.spc with LEnd EExhausted -> "exhausted" | LEnd _ -> "cut" | _ -> "model-not-ended") in
+           let m_end = if quiescent fin then m_end else "model-not-quiescent" in
            (* per-instant inequality of the model's own run, at every creation instant *)
            let m_notahead = List.for_all (fun (_, ci) ->
-               int_of_nat (started_by ci fin) <= int_of_nat (released_by ci toks)) (creations fin) in
-           let async_fail = b fail && not fail0 in
-           let p_ids = if async_fail then idl else m_ids in
-           let p_started = if async_fail then started else List.length m_ids in
-           let pred = Printf.sprintf "%s %d %d %s 1 %s %s %s %s %s %s %s 0" outcome p_started p_started (ids_string p_ids)
-               (field_of_bool m_notahead) ammo_out rps_fin ext fail m_end (if conserved = "-" then "-" else "1") ^ " 1" in
+               int_of_nat (started_by ci fin.base) <= int_of_nat (released_by ci toks)) (creations fin.base) in
+           let p_started = List.length m_ids in
+           let pred = Printf.sprintf "%s %d %d %s 1 %s %s %s %s %s %s %s 0" outcome p_started p_started (ids_string m_ids)
+               (field_of_bool m_notahead) ammo_out rps_fin ext fail m_end (if conserved = "-" then "-" else "1") ^ " 1 "
+               ^ string_of_int (if fail0 then 1 else List.length (creations fin.base)) in
+           let want_holes = if b fail && not pre_fail then 1 else 0 in
            let v =
              if outcome = "hang" then "BAD:hang"
              else if rps_fin = "2" then "BAD:shared-rps-profile-reported-finished-before-its-end"
              else if distinct <> "1" then "BAD:ids-not-distinct"
              else if (not (b fail)) && idl <> seqi 0 started then "BAD:ids-not-consecutive-from-0"
              else if notahead <> "1" then "BAD:instance-created-before-its-startup-token"
-             else if b fail && (List.exists (fun i -> i >= k || i < 0) idl || List.length idl < launched - 1) then "BAD:ids-with-failed-creation"
+             else if List.exists (fun i -> i >= attempts || i < 0) idl || attempts - List.length idl <> want_holes
+               then "BAD:ids-of-instances-and-failed-creations-are-not-0..launched-1"
              else if onprofile <> "1" then "BAD:instance-created-before-the-configured-profile-released-its-token"
              else if finished <> started then "BAD:instance-start-finish-counters"
-             else if started > k then "BAD:more-instances-than-tokens"
+             else if started > k || attempts > k then "BAD:more-instances-than-tokens"
              else if started < k && cause = None then "BAD:tokens-without-instances-and-no-listed-cause"
              else if endclass = "exhausted" && not (b fail) && started <> k then "BAD:profile-exhausted-but-instances-missing"
-             else if late <> "0" then "BAD:instances-still-started-long-after-ammo-out-or-rps-finish"
+             else if b fail && outcome = "ok" then "BAD:instance-could-not-be-created-but-nothing-was-cancelled"
+             else if late <> "0" then "BAD:instances-still-started-long-after-ammo-out-rps-finish-or-failed-creation"
              else if conserved = "0" then "BAD:instances-stopped-early (shots+discards <> min(tokens, ammo))"
              else "ok" in
            (pred, v, k >= 2)
